@@ -581,6 +581,10 @@ func classify(kind, addr string) string {
 		// kind wsf: the client's handshake additionally CLAIMS to come from 127.0.0.1 (X-Forwarded-For,
 		// X-Real-IP, Forwarded) - only the TCP peer address decides the scope
 		return classifyWebSocket(addr, kind == "wsf")
+	case "tcpl":
+		// a face accepted by the REAL TCP listener from a peer whose address is one of this host's own
+		// non-loopback addresses (addr = "host"): not a loopback address, so NonLocal
+		return classifyListenerPeer()
 	case "udp4", "udp6":
 		v := 4
 		if kind == "udp6" {
@@ -736,6 +740,79 @@ func (l peerListener) Accept() (net.Conn, error) {
 		return nil, err
 	}
 	return peerConn{c, l.peer}, nil
+}
+
+// hostAddr: the first non-loopback IPv4 address of an interface of this host ("" if there is none)
+func hostAddr() string {
+	as, err := net.InterfaceAddrs()
+	if err != nil {
+		return ""
+	}
+	for _, a := range as {
+		if n, ok := a.(*net.IPNet); ok {
+			if ip := n.IP.To4(); ip != nil && !ip.IsLoopback() && ip.IsGlobalUnicast() {
+				return ip.String()
+			}
+		}
+	}
+	return ""
+}
+
+func classifyListenerPeer() string {
+	addr := hostAddr()
+	if addr == "" {
+		return "err"
+	}
+	burnFaceIDs()
+	probe, err := net.Listen("tcp4", addr+":0")
+	if err != nil {
+		return "err"
+	}
+	port := probe.Addr().(*net.TCPAddr).Port
+	probe.Close()
+	l, err := face.MakeTCPListener(defn.MakeTCPFaceURI(4, addr, uint16(port)))
+	if err != nil {
+		return "err"
+	}
+	go l.Run()
+	defer l.Close()
+	before := map[uint64]bool{}
+	for _, f := range face.FaceTable.GetAll() {
+		before[f.FaceID()] = true
+	}
+	d := net.Dialer{LocalAddr: &net.TCPAddr{IP: net.ParseIP(addr)}}
+	var c net.Conn
+	for i := 0; i < 200000; i++ { // no clock to wait on in the bubble: spin until the listener has bound
+		if c, err = d.Dial("tcp4", net.JoinHostPort(addr, strconv.Itoa(port))); err == nil {
+			break
+		}
+		runtime.Gosched()
+	}
+	if err != nil {
+		return "err"
+	}
+	var got face.LinkService
+	for i := 0; i < 2000000 && got == nil; i++ {
+		for _, f := range face.FaceTable.GetAll() {
+			if !before[f.FaceID()] && f.RemoteURI() != nil && f.RemoteURI().Scheme() == "tcp4" {
+				got = f
+			}
+		}
+		if got == nil {
+			runtime.Gosched()
+		}
+	}
+	res := "err"
+	if got != nil {
+		res = scopeText(got.Scope())
+	}
+	c.Close()
+	if got != nil {
+		for i := 0; i < 2000000 && face.FaceTable.Get(got.FaceID()) != nil; i++ {
+			runtime.Gosched()
+		}
+	}
+	return res
 }
 
 func classifyWebSocket(addr string, claimLoopback bool) string {
